@@ -209,7 +209,11 @@ Section Edges.
   (* every point of the segment between two points of a line is on that line *)
   Lemma segment_on_line V W a q t : on_line V a q -> on_line W a q ->
     on_line ((1 - t) * fst V + t * fst W, (1 - t) * snd V + t * snd W) a q.
-  Proof. unfold on_line. cbn [fst snd]. intros H1 H2. nra. Qed.
+  Proof.
+    unfold on_line. cbn [fst snd]. intros H1 H2.
+    transitivity ((1 - t) * (fst V * cos a + snd V * sin a) + t * (fst W * cos a + snd W * sin a)); [ring|].
+    rewrite H1, H2. ring.
+  Qed.
 End Edges.
 
 (* ------------------------------------------------------------------ the quantile contract and what it gives *)
@@ -233,9 +237,11 @@ Section Quantile.
   Lemma sorted_nth_le : forall (s : list R) i j d, StronglySorted Rle s -> (i <= j < length s)%nat -> nth i s d <= nth j s d.
   Proof.
     induction s as [|a s IH]; intros i j d Hs Hij; [cbn in Hij; lia|].
-    inversion Hs as [|? ? Hs' Hall]; subst. destruct i as [|i], j as [|j]; cbn [nth]; try lra; try lia.
-    - rewrite Forall_forall in Hall. apply Hall. apply nth_In. cbn in Hij. lia.
-    - apply IH; auto. cbn in Hij. lia.
+    inversion Hs as [|? ? Hs' Hall]; subst. cbn [length] in Hij. destruct i as [|i], j as [|j]; cbn [nth].
+    - lra.
+    - rewrite Forall_forall in Hall. apply Hall. apply nth_In. lia.
+    - exfalso. lia.
+    - apply IH; auto. lia.
   Qed.
 
   Lemma filter_none {A} (f : A -> bool) l : (forall x, In x l -> f x = false) -> filter f l = [].
@@ -244,6 +250,10 @@ Section Quantile.
   Proof. induction l as [|a l IH]; intros H; [reflexivity|]. cbn. rewrite (H a) by (left; reflexivity). f_equal. apply IH. intros x Hx. apply H. right. exact Hx. Qed.
   Lemma filter_length_le {A} (f : A -> bool) l : (length (filter f l) <= length l)%nat.
   Proof. induction l as [|a l IH]; [reflexivity|]. cbn. destruct (f a); cbn; lia. Qed.
+
+  Lemma filter_length_split {A} (f : A -> bool) (l : list A) m :
+    length (filter f l) = (length (filter f (firstn m l)) + length (filter f (skipn m l)))%nat.
+  Proof. rewrite <- (firstn_skipn m l) at 1. rewrite filter_app, app_length. reflexivity. Qed.
 
   Lemma In_firstn_nth (s : list R) m x : In x (firstn m s) -> exists i, (i < m)%nat /\ (i < length s)%nat /\ nth i s 0 = x.
   Proof.
@@ -261,7 +271,6 @@ Section Quantile.
   Qed.
 
   Variables (z : list R) (alpha q : R).
-  Hypothesis Ha : 0 <= alpha <= 1.
   Hypothesis HQ : is_quantile z (1 - alpha) q.
 
   (* "a fraction alpha of the sample lies beyond it", exact up to one observation:
@@ -278,29 +287,30 @@ Section Quantile.
     (* s_k <= q <= s_{k+1} *)
     assert (Hd : nth k s 0 <= nth (S k) s (nth k s 0)).
     { destruct (Nat.lt_ge_cases (S k) (length s)) as [L|L].
-      - rewrite (nth_indep s (nth k s 0) 0) by exact L. apply sorted_nth_le; auto. lia.
+      - rewrite (nth_indep s (nth k s 0) 0) by exact L. apply sorted_nth_le; [exact HS|lia].
       - rewrite (nth_overflow s (nth k s 0)) by exact L. lra. }
     assert (Hlo : nth k s 0 <= q) by (rewrite Hq; nra).
     assert (Hhi : q <= nth (S k) s (nth k s 0)) by (rewrite Hq; nra).
     unfold count_gt, count_ge. cbn [ltb leb Rops].
     rewrite <- (filter_length_perm (fun v => Rltb q v) s z HP), <- (filter_length_perm (fun v => Rleb q v) s z HP).
-    rewrite <- (firstn_skipn (S k) s) at 1 3. rewrite !filter_app, !app_length. split.
+    rewrite (filter_length_split (fun v => Rltb q v) s (S k)), (filter_length_split (fun v => Rleb q v) s (S k)). split.
     - (* nothing among the first k+1 order statistics is beyond q *)
       rewrite (filter_none (fun v => Rltb q v) (firstn (S k) s)).
       + cbn [length plus].
         assert (L : (length (filter (fun v => Rltb q v) (skipn (S k) s)) <= n - S k)%nat).
         { etransitivity; [apply filter_length_le|]. rewrite skipn_length. lia. }
-        apply le_INR in L. rewrite minus_INR in L by lia. rewrite S_INR in L. lra.
+        apply le_INR in L. rewrite minus_INR in L by lia. rewrite S_INR in L. unfold h in Hk2. nra.
       + intros x Hx. destruct (In_firstn_nth _ _ _ Hx) as [i [Hi1 [Hi2 <-]]]. apply Rltb_false.
-        transitivity (nth k s 0); [|exact Hlo]. apply sorted_nth_le; auto. lia.
+        apply (Rle_trans _ (nth k s 0)); [|exact Hlo]. apply sorted_nth_le; [exact HS|lia].
     - destruct (Nat.lt_ge_cases (S k) n) as [L|L].
       + (* all order statistics from k+1 on are at or beyond q *)
         rewrite (filter_all (fun v => Rleb q v) (skipn (S k) s)).
-        * rewrite skipn_length, Hlen, plus_INR, minus_INR by lia. rewrite S_INR.
-          pose proof (pos_INR (length (filter (fun v : R => Rleb q v) (firstn (S k) s)))). lra.
+        * assert (E2 : INR (n - S k) = INR n - INR k - 1) by (rewrite minus_INR by lia; rewrite S_INR; ring).
+          rewrite skipn_length, Hlen, plus_INR, E2.
+          pose proof (pos_INR (length (filter (fun v : R => Rleb q v) (firstn (S k) s)))). unfold h in Hk1. nra.
         * intros x Hx. destruct (In_skipn_nth _ _ _ Hx) as [i [Hi1 [Hi2 <-]]]. apply Rleb_true.
-          transitivity (nth (S k) s (nth k s 0)); [exact Hhi|]. rewrite (nth_indep s (nth k s 0) 0) by lia.
-          apply sorted_nth_le; auto.
+          apply (Rle_trans _ (nth (S k) s (nth k s 0))); [exact Hhi|]. rewrite (nth_indep s (nth k s 0) 0) by lia.
+          apply sorted_nth_le; [exact HS|lia].
       + (* k = n-1: h = n-1, so (n-1) alpha <= 0 *)
         assert (E : INR k = INR (n - 1)) by (f_equal; lia).
         pose proof (pos_INR (length (filter (fun v : R => Rleb q v) (firstn (S k) s)) + length (filter (fun v : R => Rleb q v) (skipn (S k) s)))).
@@ -349,3 +359,55 @@ Section Unrepaired.
     replace (PI / 2 + 2 * s - 0 * s - (PI / 2 + 2 * s - INR N * s)) with (2 * PI) by lra. apply sin_2PI.
   Qed.
 End Unrepaired.
+
+(* ------------------------------------------------------------------ the property clauses, assembled *)
+Lemma edges_on_quantile_tangent_lines :
+  forall (xs ys : list R) (alpha : R) (C : R -> R) (N : nat) (deg_step : R),
+    (forall a, is_quantile (proj R Rops xs ys a) (1 - alpha) (C a)) ->
+    (3 <= N)%nat -> INR N * deg_step = 360 ->
+    let s := rad_step R Rops deg_step in
+    let P := ds_polygon R Rops C N deg_step in
+    length P = N /\
+    forall i, (i < N)%nat ->
+      let a := angle R Rops s i in
+      let V := nth ((i + N - 1) mod N) P (0, 0) in
+      let W := nth i P (0, 0) in
+      is_quantile (proj R Rops xs ys a) (1 - alpha) (fst V * cos a + snd V * sin a) /\
+      is_quantile (proj R Rops xs ys a) (1 - alpha) (fst W * cos a + snd W * sin a) /\
+      forall t, on_line ((1 - t) * fst V + t * fst W, (1 - t) * snd V + t * snd W) a (C a).
+Proof.
+  intros xs ys alpha C N deg_step HC HN Hdiv s P. split; [apply ds_polygon_length|].
+  intros i Hi a V W. destruct (edge_on_tangent_line C N deg_step HN Hdiv i Hi) as [H1 H2].
+  fold s in H1, H2. fold P in H1, H2. fold a in H1, H2. fold V in H1. fold W in H2.
+  unfold on_line in H1, H2. rewrite H1, H2. repeat split; try apply HC.
+  intros t. apply segment_on_line; assumption.
+Qed.
+
+Lemma normals_cover_circle_once : forall (N : nat) (deg_step : R),
+  (3 <= N)%nat -> INR N * deg_step = 360 ->
+  let s := rad_step R Rops deg_step in
+  s = deg_step * PI / 180 /\ INR N * s = 2 * PI /\
+  length (angles R Rops N s) = N /\
+  (forall i, angle R Rops s (S i) = angle R Rops s i - s) /\
+  (forall i, angle R Rops s i = angle R Rops s 0 - INR i * s) /\
+  angle R Rops s 0 = angle R Rops s (N - 1) - s + 2 * PI.
+Proof.
+  intros N deg_step HN Hdiv s. repeat split.
+  - apply (full_turn N deg_step Hdiv).
+  - unfold angles. rewrite map_length, seq_length. reflexivity.
+  - apply angle_succ.
+  - apply angle_from_first.
+  - apply (angle_wrap N deg_step HN Hdiv).
+Qed.
+
+Lemma sample_size_clauses : forall T (O : ops T) S (draw : Z -> S) (smp : S) n n_opt alpha,
+  used_sample T O draw None None alpha = draw (trunc O (div O (c100 O) alpha)) /\
+  used_sample T O draw None (Some n) alpha = draw n /\
+  used_sample T O draw (Some smp) n_opt alpha = smp.
+Proof. intros. repeat split. Qed.
+
+Lemma unrepaired_closing_vertex_degenerate : forall N, (3 <= N)%nat ->
+  let s := 2 * PI / INR N in
+  ((- 3 * PI / 2 + s) - (PI / 2 + 2 * s)) / (- s) = INR (N + 1) /\
+  den R Rops (legacy_angle N N) (legacy_angle N 0) = 0.
+Proof. intros N HN s. split; [apply legacy_arange_quotient|apply legacy_closing_vertex_degenerate]; exact HN. Qed.
